@@ -1241,6 +1241,8 @@ pub fn run<C: Codec>(tier: Tier) -> i32 {
     ctx.run::<AcceptExact>();
     ctx.run::<Requests>();
     ctx.run::<Writers>();
+    ctx.run::<crate::verif::props::c09a::AttrValues>();
+    ctx.run::<crate::verif::props::c09a::AttrResponses>();
     ctx.finish()
 }
 
@@ -1248,4 +1250,6 @@ pub fn replay<C: Codec>(text: &str, known: &[Known]) -> Option<i32> {
     replay_file::<C, AcceptExact>(text, known)
         .or_else(|| replay_file::<C, Requests>(text, known))
         .or_else(|| replay_file::<C, Writers>(text, known))
+        .or_else(|| replay_file::<C, crate::verif::props::c09a::AttrValues>(text, known))
+        .or_else(|| replay_file::<C, crate::verif::props::c09a::AttrResponses>(text, known))
 }
